@@ -248,6 +248,8 @@ struct verif_list
     int n;
     T** begin() { return &ptr[0]; }
     T** end() { return &ptr[0] + n; }
+    size_t size() const { return (size_t)n; }
+    bool empty() const { return n == 0; }
 };
 struct template_t
 {
@@ -259,31 +261,7 @@ struct template_t
     string str(bool) const { string x; x.r.a = 2; return x; }
 };
 class Document;
-class XMLWriter
-{
-public:
-    xmlTextWriterPtr writer;
-    Document* doc;
-    std::verif_intmap selfLoops;
-    void startElement(const char* element);
-    void endElement();
-    void writeElement(const char* name, const char* content);
-    void writeString(const char* data);
-    void xmlwriteString(const xmlChar* data);
-    void writeAttribute(const char* name, const char* value);
-    void label(const char* kind, string data, int x, int y);
-    void name(const location_t& loc, int x, int y);
-    void writeStateAttributes(const location_t& loc, int x, int y);
-    void location(const location_t& loc);
-    void init(const template_t& templ);
-    int source(const edge_t& edge);
-    int target(const edge_t& edge);
-    void selfLoop(const int loc, const double initialAngle, const edge_t& edge);
-    void nail(int x, int y);
-    void transition(const edge_t& edge);
-    void labels(int x, int y, const edge_t& edge);
-    void taTempl(const template_t& templ);
-};
+#include "xmlwriter_class.inc" /* REAL class XMLWriter, lowered */
 }  // namespace UTAP
 using namespace UTAP;
 #define MY_ENCODING verif_lit(LIT_UTF8, "utf-8")
@@ -297,6 +275,7 @@ static location_t L[3];
 static branchpoint_t B;
 static edge_t E[2];
 static template_t TPL;
+#include "xw_members.inc" /* GENERATED: access to the scalar data members of the real class */
 extern "C" {
 void w20_reset(void)
 {
